@@ -94,3 +94,61 @@ package hotrestart
 //@   prop C17
 //@   requires r != nil && conn != nil
 //@   callpre dynamic @each-request-goes-to-its-own-handler (msg.Type == 1 ==> fnis(callee, "handleShutdownAdminRequest$bound")) && (msg.Type == 3 ==> fnis(callee, "handleShutdownLocalConfRequest$bound")) && (msg.Type == 5 ==> fnis(callee, "handleDrainListenersRequest$bound")) && (msg.Type == 7 ==> fnis(callee, "handleTerminateRequest$bound")) && (msg.Type != 1 && msg.Type != 3 && msg.Type != 5 && msg.Type != 7 ==> fnis(callee, "handleUnknownRequest$bound"))
+
+// ---- C17: the child asks for each hand-over step with the matching request and waits for the acknowledgement ----
+
+//@ func newShutdownParentAdminRequest
+//@   mode bv
+//@   prop C17
+//@   ensures @request result != nil && result.Type == 1 && int(result.Len) == len(result.Data) && result.Len <= 65532
+
+//@ func newShutdownParentLocalConfRequest
+//@   mode bv
+//@   prop C17
+//@   ensures @request result != nil && result.Type == 3 && int(result.Len) == len(result.Data) && result.Len <= 65532
+
+//@ func newDrainParentListenersRequest
+//@   mode bv
+//@   prop C17
+//@   ensures @request result != nil && result.Type == 5 && int(result.Len) == len(result.Data) && result.Len <= 65532
+
+//@ func newTerminateParentRequest
+//@   mode bv
+//@   prop C17
+//@   ensures @request result != nil && result.Type == 7 && int(result.Len) == len(result.Data) && result.Len <= 65532
+
+//@ func (*Restarter).ShutdownParentAdmin
+//@   mode bv
+//@   prop C17
+//@   requires r != nil
+//@   modifies all, sentBuf, recvBuf, recvN, childsteps, childlast
+//@   ghostdef childsteps == old(childsteps) + 1 && childlast == 1
+//@   callpre sendMessage @the-matching-request-goes-to-the-parent arg0 == r.parentConn && arg1 != nil && arg1.Type == 1
+//@   callpre readMessage @the-acknowledgement-is-awaited-on-the-same-connection arg0 == r.parentConn && len(sentBuf) >= 3 && sentBuf[0] == 1
+
+//@ func (*Restarter).ShutdownParentLocalConf
+//@   mode bv
+//@   prop C17
+//@   requires r != nil
+//@   modifies all, sentBuf, recvBuf, recvN, childsteps, childlast
+//@   ghostdef childsteps == old(childsteps) + 1 && childlast == 2
+//@   callpre sendMessage @the-matching-request-goes-to-the-parent arg0 == r.parentConn && arg1 != nil && arg1.Type == 3
+//@   callpre readMessage @the-acknowledgement-is-awaited-on-the-same-connection arg0 == r.parentConn && len(sentBuf) >= 3 && sentBuf[0] == 3
+
+//@ func (*Restarter).DrainParentListeners
+//@   mode bv
+//@   prop C17
+//@   requires r != nil
+//@   modifies all, sentBuf, recvBuf, recvN, childsteps, childlast
+//@   ghostdef childsteps == old(childsteps) + 1 && childlast == 3
+//@   callpre sendMessage @the-matching-request-goes-to-the-parent arg0 == r.parentConn && arg1 != nil && arg1.Type == 5
+//@   callpre readMessage @the-acknowledgement-is-awaited-on-the-same-connection arg0 == r.parentConn && len(sentBuf) >= 3 && sentBuf[0] == 5
+
+//@ func (*Restarter).TerminateParent
+//@   mode bv
+//@   prop C17
+//@   requires r != nil
+//@   modifies all, sentBuf, recvBuf, recvN, childsteps, childlast
+//@   ghostdef childsteps == old(childsteps) + 1 && childlast == 4
+//@   callpre sendMessage @the-matching-request-goes-to-the-parent arg0 == r.parentConn && arg1 != nil && arg1.Type == 7
+//@   callpre readMessage @the-acknowledgement-is-awaited-on-the-same-connection arg0 == r.parentConn && len(sentBuf) >= 3 && sentBuf[0] == 7
